@@ -556,6 +556,12 @@ func (c Config) Map() map[string]any {
 		if s.Scheme != "" {
 			m["scheme"] = s.Scheme
 		}
+		if s.Flows != nil {
+			m["flows"] = s.Flows
+		}
+		if s.OpenIDConnectURL != "" {
+			m["openIdConnectUrl"] = s.OpenIDConnectURL
+		}
 		schemes = append(schemes, m)
 	}
 	oa := map[string]any{
